@@ -25,6 +25,6 @@ def duration_float_precision(clause, case, detail):
     #     within float rounding (7.8 ms) of timedelta.max
     import re
     for m in re.finditer(r"timedelta\(days=999999999, seconds=86399, microseconds=(\d+)\)", case.get("value", "")):
-        if int(m.group(1)) >= 992187 and clause in ("unmarshal-succeeds", "round-trip", "union-fixpoint", "wire-round-trip", "decode-encode"):
+        if int(m.group(1)) >= 992187:
             return True
     return False
